@@ -44,7 +44,7 @@ def r09_1(ctx: Ctx):
     for fn in (e.get_image,):
         selfv = var(fn.param_names[0])
         x = var(fn.param_names[1])
-        heap = {(key_of(selfv), 'numberOfFloatVariables'): RF.const(1)}
+        heap = {(key_of(selfv), e.dim_field): RF.const(1)}
         U = sub(attr(selfv, e.backing_field('upperBoundOfFloatVariables')), zero)
         L = sub(attr(selfv, e.backing_field('lowerBoundOfFloatVariables')), zero)
         n = 0
@@ -60,14 +60,20 @@ def r09_1(ctx: Ctx):
                 if isinstance(v2, RF):
                     v = v2
             exp = L + x * (U - L)
+            nf = len(ctx.findings)
+            v = evo.expand_coefficients(ctx, rid, fn, v, selfv)
+            if len(ctx.findings) > nf:
+                continue
             ok = isinstance(v, RF) and C.strip_rf(v).equals(C.strip_rf(exp))
+            if not ok:
+                evo.refuse_maintained_coefficients(ctx, rid, fn, v, selfv)
             ctx.check(ok, rid, fn.short, fn.loc(), 'N=1 image is L + x(U-L)',
                       f'for N=1 the image of x is {C.fmt(v)}; expected {C.fmt(exp)}', key=f'{rid}::{fn.short}::affine')
         ctx.floor(rid, f'N=1 paths of {fn.short}', n, 1)
     for fn in (e.get_inverse, e.get_pre):
         selfv = var(fn.param_names[0])
         y = var(fn.param_names[1])
-        heap = {(key_of(selfv), 'numberOfFloatVariables'): RF.const(1)}
+        heap = {(key_of(selfv), e.dim_field): RF.const(1)}
         U = sub(attr(selfv, e.backing_field('upperBoundOfFloatVariables')), zero)
         L = sub(attr(selfv, e.backing_field('lowerBoundOfFloatVariables')), zero)
         n = 0
@@ -89,7 +95,13 @@ def r09_1(ctx: Ctx):
             if isinstance(v, RF):
                 v = C.strip_rf(C.subst_rf(C.strip_rf(v), {C.strip_versions(k): C.strip_versions(t) for k, t in m.items()}))
             exp = (sub(y, zero) - L) / (U - L)
-            ok = isinstance(v, RF) and v.equals(C.strip_rf(exp))
+            nf = len(ctx.findings)
+            v = evo.expand_coefficients(ctx, rid, fn, v, selfv)
+            if len(ctx.findings) > nf:
+                continue
+            ok = isinstance(v, RF) and C.strip_rf(v).equals(C.strip_rf(exp))
+            if not ok:
+                evo.refuse_maintained_coefficients(ctx, rid, fn, v, selfv)
             ctx.check(ok, rid, fn.short, fn.loc(), 'N=1 inverse image is (y-L)/(U-L)',
                       f'for N=1 the inverse image of y is {C.fmt(v)}; expected {C.fmt(exp)}',
                       key=f'{rid}::{fn.short}::affine')
@@ -143,7 +155,7 @@ def r09_3(ctx: Ctx):
     selfv = var(fn.param_names[0])
     B = attr(selfv, Bf)
     ex = e.explorer(unroll=2)
-    heap = {(key_of(selfv), 'numberOfFloatVariables'): RF.const(0)}
+    heap = {(key_of(selfv), e.dim_field): RF.const(0)}
     n = 0
     for p in C.normal_paths(ex.explore(fn, heap=heap)):
         calls = [ev for ev in p.events if ev.kind == 'call' and e.numbr_fn in ev.d['callees']]
